@@ -87,7 +87,12 @@ def run_case(case, tier):
             out.events["c09:inherited-jobserver"] += 1
         if problems:
             kind, sym, inv, text = problems[0]
-            out.violation = {"property": "C09", "clause": kind, "step": 0,
+            prop = "C09"
+            if "database is locked" in sym:
+                prop = "C16"      # a database-busy failure is C16's subject
+            elif "on exit: expected" in sym:
+                prop = "C08"      # token accounting is C08's subject
+            out.violation = {"property": prop, "clause": kind, "step": 0,
                              "detail": {"argv": inv.spec["argv"], "rc": inv.rc, "text": text[-2500:],
                                         "decisions": r.tl.decisions[-40:],
                                         "all": [(p[0], p[1], p[2].spec["argv"]) for p in problems]},
